@@ -26,17 +26,30 @@ RULE = ("segment tables of 1..6 chromosomes (either naming style, any order) x 1
         "filters as list or tuple, the caller's list required to come back unchanged; do_call through the API with ONE "
         "filter and method none (ci|sem), clonal, threshold/clonal with purity 0.3..0.95 or 1.0, a baf column in the table "
         "(cn1/cn2 derived by do_call), the un-filtered call with the same arguments entering the model as the table; "
-        "non-trivial = some run of >= 2 mergeable neighbours exists; distinct by hash")
+        "ROUND 4 (ops filter_chain / do_call_pipe, the model's Filt.run / runChain / doCallFiltersE): chains of 1..3 filters "
+        "(repeats allowed) applied directly, segfilters.F1 then F2 ..., on tables whose optional column groups cn / cn1+cn2 / "
+        "ci_lo+ci_hi / sem are present or absent (require_column refusals, the columns a squash drops), 30 % with missing "
+        "(NaN) ci / sem values in a present column; `chain-amp` tables of amplified / deleted runs with unequal cn and weights "
+        "from {0, 1, 2} (exact half-weight ties: the weighted-median cn of an ampdel run is often k + 1/2) through "
+        "ampdel->cn, cn->ampdel, ampdel, ampdel->cn->ampdel; do_call(method threshold | none) with ANY filter list: both "
+        "ci and sem (refused), repeated names, method none with a cn-based filter (refused); "
+        "non-trivial = some run of >= 2 mergeable neighbours exists (or the call is refused); distinct by hash")
 EXHAUSTIVE = {"quick": False, "thorough": False}
 ASSUMPTIONS = ["rows grouped by chromosome (each chromosome's rows contiguous; the chromosomes in any order)",
                "row labels: the command line and batch hand over tables labelled 0..n-1; for tables with other labels (filtered "
                "subsets, repeated labels) only `cn` and do_call's reset of repeated labels before the post-call filters are "
                "checked until the open defect proposed_fixes/C14-filter-row-labels.md is repaired in /repo (ci/sem/ampdel lose rows there)",
+               "cn present (not NaN) wherever a cn-based filter reads it -- do_call writes integer calls; ci / sem may be missing (NaN: neutral)",
+               "needs proposed_fixes/C14-fractional-levels-merged.diff applied to /repo (enumerate_changes counts the changes): until "
+               "then the corpus witness `corpus-fractional-level` and the `chain-amp` cases report chain_runs_squashed",
+               "where the property's wording itself is a refusal (a required column missing, e.g. a list with both ci and sem) no spec "
+               "clause is evaluated: the refusal and the filter it names are compared with the model only",
                "the weighted median of unequal cn values inside an ampdel run is computed with C19's model of weighted_median on the "
                "pairs sorted by value (tie order unobservable: C19 wmedian_tie_order_unobservable)"]
 TRUSTED_EXTRA = ["pandas groupby(sort=False)/apply ordering, np.average"]
 FILTERS = ("cn", "ci", "sem", "ampdel")
 DEFAULT_THR = (-1.1, -0.25, 0.2, 0.7)
+BASE_COLS = ["chromosome", "start", "end", "gene", "log2", "probes", "weight"]
 
 
 def _levels_runs(rng, n, values):
@@ -92,6 +105,7 @@ def _table(rng, small=False):
 def corpus():
     r = lambda c, s, e, cn: [c, s, e, "G", "0", 10, "1", str(cn), None, None, "-1/10", "1/10", "1/20"]
     a = lambda s, e, c1, c2: ["chr1", s, e, "G", "0", 5, "1", "2", c1, c2, "-1/10", "1/10", "1/20"]
+    w = lambda c, s, e, cn, lg: [c, s, e, "G", lg, 5, "1", str(cn), None, None, None, None, None]
     return [
         # finding T: a BAF-less segment used to bridge runs with different allele-specific copy numbers
         {"op": "segfilter", "tag": "corpus-T",
@@ -99,6 +113,17 @@ def corpus():
         {"op": "segfilter", "tag": "corpus-chrom-boundary",
          "in": {"rows": [r("chr1", 0, 10, 2), r("chr1", 10, 20, 2), r("chr2", 0, 10, 2), r("chr2", 20, 30, 3)],
                 "filter": "cn", "has_cn1": False}},
+        # proposed_fixes/C14-fractional-levels-merged: `ampdel` squashes cn 5 and 6 (equal weights) into their weighted
+        # median 5.5; the `cn` filter that follows merged it with the cn-5 segment beyond the dropped neutral one
+        {"op": "filter_chain", "tag": "corpus-fractional-level",
+         "in": {"rows": [w("chr1", 0, 10, 5, "13/10"), w("chr1", 10, 20, 6, "8/5"), w("chr1", 20, 30, 2, "0"), w("chr1", 30, 40, 5, "13/10")],
+                "cols": BASE_COLS + ["cn"], "filters": ["ampdel", "cn"]}},
+        # a list holding both ci and sem: each consumes the columns the other needs -> ValueError from the second
+        {"op": "do_call_pipe", "tag": "corpus-ci-and-sem",
+         "in": {"rows": [r("chr1", 0, 10, 2)[:7] + [None, None, None] + r("chr1", 0, 10, 2)[10:],
+                         r("chr1", 10, 20, 2)[:7] + [None, None, None] + r("chr1", 10, 20, 2)[10:]],
+                "cols": BASE_COLS + ["ci_lo", "ci_hi", "sem"], "filters": ["sem", "cn", "ci"], "method": "threshold",
+                "thr": [frac(t) for t in DEFAULT_THR], "thr_f": list(DEFAULT_THR), "ploidy": 2, "hapX": False}},
     ]
 
 
@@ -136,7 +161,123 @@ def gen_cases(rng, tier):
     # other representations / call styles / doors (own random stream: the cases above keep theirs)
     import random
     cases += _rep_cases(random.Random(rng.randrange(10 ** 9)), tier)
+    cases += _chain_cases(random.Random(rng.randrange(10 ** 9)), tier)
     return cases
+
+
+# ---------------------------------------------------------------------------------------------------------------
+# round 4: chains of filters applied directly (guards, dropped columns, fractional weighted-median cn handed from
+# `ampdel` to `cn`), and do_call with ANY filter list (both ci and sem, repeated names, method none + cn filter)
+
+def _table_amp(rng):
+    """amplified / deleted runs of unequal cn with weights from {1, 2}: exact half-weight ties, so that the weighted
+    median of an ampdel run is often k + 1/2; neutral singletons between them"""
+    rows = []
+    for c in rng.sample(["chr1", "chr2", "chr7", "chrX"], rng.randint(1, 3)):
+        pos = rng.randint(0, 1000)
+        for _ in range(rng.randint(2, 9)):
+            kind = rng.choice(["amp", "amp", "amp", "del", "neutral"])
+            for _k in range(1 if kind == "neutral" else rng.randint(1, 4)):
+                cn = {"amp": rng.choice([5, 5, 6, 6, 7, 9]), "del": 0, "neutral": rng.choice([1, 2, 3, 4])}[kind]
+                ln = rng.randint(1, 1000)
+                pos += rng.choice([0, rng.randint(1, 50)])
+                rows.append([c, pos, pos + ln, rng.choice(["A", "B", "-"]), frac(float(rng.randint(-8, 8)) / 4), rng.randint(1, 50),
+                             frac(float(rng.choice([1, 1, 1, 2, 0]))), frac(cn), None, None, None, None, None])
+                pos += ln
+    return rows
+
+
+def _cols_for(rng, rows, has_cn1, drop=0.0):
+    cols = list(BASE_COLS)
+    for grp in (["cn"], ["cn1", "cn2"] if has_cn1 else [], ["ci_lo", "ci_hi"], ["sem"]):
+        if grp and rng.random() >= drop:
+            cols += grp
+    if "cn1" in cols and "cn" not in cols:
+        cols = [c for c in cols if c not in ("cn1", "cn2")]
+    return cols
+
+
+def _blank(rows, cols):
+    idx = {"cn": 7, "cn1": 8, "cn2": 9, "ci_lo": 10, "ci_hi": 11, "sem": 12}
+    return [[(None if (k >= 7 and not any(idx[c] == k for c in cols if c in idx)) else v) for k, v in enumerate(r)] for r in rows]
+
+
+def _chain_cases(rng, tier):
+    cases = []
+    n = {"quick": 120, "thorough": 1200, "search": 300}[tier]
+    for k in range(n):
+        rows = _table_amp(rng)
+        fl = rng.choice([["ampdel", "cn"], ["ampdel", "cn"], ["cn", "ampdel"], ["ampdel"], ["ampdel", "cn", "ampdel"]])
+        cases.append({"op": "filter_chain", "tag": "chain-amp:" + "+".join(fl),
+                      "in": {"rows": rows, "cols": BASE_COLS + ["cn"], "filters": fl}})
+    m = {"quick": 150, "thorough": 1500, "search": 150}[tier]
+    for k in range(m):
+        rows, has_cn1 = _table(rng, small=rng.random() < 0.6)
+        fl = [rng.choice(FILTERS) for _ in range(rng.choice([1, 2, 2, 3]))]
+        cols = _cols_for(rng, rows, has_cn1, drop=rng.choice([0.0, 0.0, 0.3]))
+        rows = _blank(rows, cols)
+        nan = rng.random() < 0.3
+        if nan:
+            # missing (NaN) segmetrics values in a column that is present: 1-bin segments have no sem, a failed
+            # bootstrap no ci -- every comparison with NaN is False, the row is neutral
+            for r in rows:
+                for k in (10, 11, 12):
+                    if rng.random() < 0.25:
+                        r[k] = None
+        cases.append({"op": "filter_chain", "tag": ("chain-nan:" if nan else "chain:") + "+".join(fl),
+                      "in": {"rows": rows, "cols": cols, "filters": fl}})
+    q = {"quick": 120, "thorough": 1200, "search": 120}[tier]
+    for k in range(q):
+        rows, _h = _table(rng, small=rng.random() < 0.6)
+        kind = rng.choice(["both", "any", "any", "repeat", "none"])
+        if kind == "both":
+            fl = rng.sample(FILTERS, rng.choice([2, 3, 4]))
+            for f in ("ci", "sem"):
+                if f not in fl:
+                    fl.insert(rng.randrange(len(fl) + 1), f)
+        elif kind == "repeat":
+            fl = [rng.choice(FILTERS) for _ in range(rng.choice([2, 3]))]
+        else:
+            fl = rng.sample(FILTERS, rng.choice([1, 2, 3]))
+        method = "none" if kind == "none" else "threshold"
+        cols = BASE_COLS + [c for grp in (["ci_lo", "ci_hi"], ["sem"]) if rng.random() < 0.85 for c in grp]
+        cases.append({"op": "do_call_pipe", "tag": "pipe-" + kind + ":" + "+".join(fl),
+                      "in": {"rows": _blank(rows, cols), "cols": cols, "filters": fl, "method": method,
+                             "thr": [frac(t) for t in DEFAULT_THR], "thr_f": list(DEFAULT_THR),
+                             "ploidy": rng.choice([2, 2, 3, 4]), "hapX": rng.random() < 0.5}})
+    return cases
+
+
+def _raises(e):
+    """the outcome `raises` for the ValueError of a `require_column` guard (its message names the filter first)"""
+    msg = str(e)
+    if "filter requires column" not in msg:
+        raise e
+    return {"raises": msg.split("'")[1]}
+
+
+def _run_chain(i):
+    from cnvlib import segfilters
+    arr = _cna(i["rows"], [c for c in i["cols"] if c not in BASE_COLS])
+    try:
+        for f in i["filters"]:
+            arr = getattr(segfilters, f)(arr)
+    except ValueError as e:
+        return _raises(e)
+    return {"rows": _rows_out(arr)}
+
+
+def _run_pipe(i):
+    from cnvlib import call
+    arr = _cna(i["rows"], [c for c in i["cols"] if c not in BASE_COLS])
+    fl = list(i["filters"])
+    try:
+        out = call.do_call(arr, None, i["method"], i["ploidy"], None, i["hapX"], False, None, fl, tuple(i["thr_f"]))
+    except ValueError as e:
+        return _raises(e)
+    if fl != list(i["filters"]):
+        raise AssertionError("do_call changed the caller's filter list")
+    return {"rows": _rows_out(out)}
 
 
 def _cli_case(rng, op, fl, kind):
@@ -389,6 +530,10 @@ def _rows_out(arr):
 def run_impl(case):
     from cnvlib import segfilters, call
     i = case["in"]
+    if case["op"] == "filter_chain":
+        return _run_chain(i)
+    if case["op"] == "do_call_pipe":
+        return _run_pipe(i)
     if i.get("cli"):
         return _run_cli(case["op"], i)
     rep = i.get("rep_f")
@@ -585,6 +730,13 @@ def judge(case, impl, resp):
     if "slack" in resp and Fraction(resp["slack"]) < Fraction(1, 10 ** 9):
         return [], [], "a level comparison (threshold / log2 +- 1.96 sem) within 1e-9 of its boundary"
     dis = []
+    if case["op"] in ("filter_chain", "do_call_pipe"):
+        if ("raises" in out) != ("raises" in impl):
+            return spec, [f"model {'raises ' + out['raises'] if 'raises' in out else 'returns rows'}, impl "
+                          f"{'raises ' + impl['raises'] if 'raises' in impl else 'returns rows'}"], None
+        if "raises" in out:
+            return spec, ([] if out["raises"] == impl["raises"] else [f"raised by {impl['raises']}, model {out['raises']}"]), None
+        out, impl = out["rows"], impl["rows"]
     if len(out) != len(impl):
         dis.append(f"row count model {len(out)} impl {len(impl)}")
     else:
@@ -600,6 +752,8 @@ def judge(case, impl, resp):
 
 
 def nontrivial(case, impl, resp):
+    if case["op"] in ("filter_chain", "do_call_pipe"):
+        return isinstance(impl, dict) and ("raises" in impl or len(impl.get("rows", [])) < len(case["in"]["rows"]))
     if isinstance(impl, dict) and "cli_rows" in impl:
         return len(impl["out"]) < len(impl["cli_rows"])
     return not isinstance(impl, dict) and len(impl) < len(case["in"]["rows"])
